@@ -14,8 +14,8 @@ import (
 func init() {
 	register(&Property{
 		ID:    "C09",
-		Rules: []string{"C09-R1", "C09-R2", "C09-R3", "C09-R4", "C09-R5", "C09-R6", "C09-R7", "C09-R8", "C10-R2", "C17-R4"},
-		Explain: "Decides how malformed entries reach the user: C09-R1 the line number is a loop-carried counter with 0 on entry and the same φ+1 on every back edge of the Scan loop (so blank, comment and note lines are counted); " +
+		Rules: []string{"C09-R1", "C09-R2", "C09-R3", "C09-R4", "C09-R5", "C09-R6", "C09-R7", "C09-R8", "C10-R2", "C10-R3", "C17-R4"},
+		Explain: "Decides how malformed entries reach the user: C10-R3 (shared) no consumer stops the walk early without an error, so no malformed line further down goes unread; C09-R1 the line number is a loop-carried counter with 0 on entry and the same φ+1 on every back edge of the Scan loop (so blank, comment and note lines are counted); " +
 			"C09-R2 the quoted line is the raw Scanner.Text() result; C09-R3 every ParseCallback of the tree, given an error, stops with an error deriving from it or prints it and continues; " +
 			"C09-R4 lint writes its success message exactly when no malformed line was reported (and not silent); " +
 			"C09-R5 an error callback that does not stop leaves the open record in place, so every later malformed line of the record is still reported; " +
@@ -27,9 +27,9 @@ func init() {
 		Run: func(c *core.Ctx) {
 			ruleLineCounter(c, "C09-R1")
 			analyseParserLoop(c, map[string]bool{"C09-R2": true, "C09-R5": true, "C09-R7": true})
-			ruleCallbackConsumers(c, map[string]bool{"C09-R3": true})
+			ruleCallbackConsumers(c, map[string]bool{"C09-R3": true, "C10-R3": true}) // a consumer that stops early without an error never reads the malformed lines further down
 			ruleLintVerdict(c, "C09-R4")
-			ruleErrorText(c, "C09-R6")
+			ruleErrorText(c, "C09-R6") // judged path by path: a helper that cuts or replaces the line on one path only does not pass
 			ruleFileReaders(c, "C09-R8")
 			// lint's lines reach the output: a writer lint buffers them in is flushed before it reports success
 			ruleLocalWriters(c, "C17-R4")
@@ -62,12 +62,17 @@ func ruleErrorText(c *core.Ctx, rule string) {
 		found++
 		fname := core.FuncName(fn)
 		x := newExec(c)
-		verb := map[string]string{} // field -> how it is rendered
+		// field -> how it is rendered, path by path (a helper that cuts the line on one path only must not hide behind
+		// the path on which it does not)
+		var cur *absint.State
 		note := func(field, how string) {
-			if prev, ok := verb[field]; ok && prev == "verbatim" {
+			if cur == nil {
 				return
 			}
-			verb[field] = how
+			if prev, ok := cur.Data["verb:"+field]; ok && prev == "verbatim" {
+				return
+			}
+			cur.SetData("verb:"+field, how)
 		}
 		fieldOf := func(v absint.Value) string {
 			if iv, ok := v.(*absint.Iface); ok {
@@ -81,6 +86,7 @@ func ruleErrorText(c *core.Ctx, rule string) {
 		}
 		var leaves func(s *absint.State, v absint.Value)
 		leaves = func(s *absint.State, v absint.Value) {
+			cur = s
 			if f := fieldOf(v); f != "" {
 				note(f, "verbatim")
 				return
@@ -124,6 +130,7 @@ func ruleErrorText(c *core.Ctx, rule string) {
 			if name != "fmt.Sprintf" && name != "fmt.Sprint" && name != "fmt.Sprintln" && name != "fmt.Errorf" {
 				return nil, false
 			}
+			cur = s
 			var vals []absint.Value
 			rest := args
 			format := ""
@@ -203,9 +210,32 @@ func ruleErrorText(c *core.Ctx, rule string) {
 		if !account(c, x, rule, fn) {
 			continue
 		}
+		verb := map[string]string{}
+		seenAny := map[string]bool{}
 		for _, tm := range terms {
 			if len(tm.Ret) == 1 {
 				leaves(tm.State, tm.Ret[0])
+			}
+			if tm.Kind != "return" {
+				continue
+			}
+			for _, f := range []string{"Line", "LineNumber"} {
+				how, ok := tm.State.Data["verb:"+f]
+				switch {
+				case !ok:
+					if seenAny[f] || len(terms) > 1 {
+						if _, had := verb[f]; !had || verb[f] == "verbatim" {
+							verb[f] = "nothing at all on one path (the text is cut or replaced there)"
+						}
+					}
+				case how != "verbatim":
+					verb[f] = how
+				default:
+					seenAny[f] = true
+					if _, had := verb[f]; !had {
+						verb[f] = how
+					}
+				}
 			}
 		}
 		for _, f := range []string{"Line", "LineNumber"} {
